@@ -53,4 +53,17 @@ def srcOf : List NIx → Idx → Idx
     if keyOut k then (keyArr k).getD (j.headD 0) 0 :: srcOf rest j.tail
     else (keyArr k).getD 0 0 :: srcOf rest j
 
+/-- no index arrays in the key (basic indexing) -/
+def NoArr : List NIx → Prop
+  | [] => True
+  | .arr _ :: _ => False
+  | _ :: rest => NoArr rest
+
+instance decNoArr : (key : List NIx) → Decidable (NoArr key)
+  | [] => isTrue trivial
+  | .arr _ :: _ => isFalse (fun h => h)
+  | .int _ :: rest => decNoArr rest
+  | .slice _ _ _ :: rest => decNoArr rest
+  | .newaxis :: rest => decNoArr rest
+
 end SparseV.Spec
